@@ -57,7 +57,9 @@ pub fn whois_view(w: &mut World, slot: usize, nick: &str) -> Result<Option<BTree
         }
         if m.cmd == "319" && m.params.len() >= 3 && m.params[1] == nick {
             for c in m.params[2].split(' ').filter(|x| !x.is_empty()) {
-                let pos = c.find('#').unwrap_or(0);
+                // the channel name starts at the first '#', or - for a local channel - at the
+                // last '&' (a '&' before it is the protected-member prefix)
+                let pos = c.find('#').or_else(|| c.rfind('&')).unwrap_or(0);
                 out.insert(c[pos..].to_string(), c[..pos].to_string());
             }
         }
